@@ -49,20 +49,20 @@ def deliveries(scratch, img: bytes):
     with open(p, "w", encoding="ascii", newline="") as f:
         f.write(cue_for("data.bin", "MODE1/2048"))
     d["cue-raw"] = p
-    scratch.write("data2352.bin", wrap2352(img))
+    scratch.write("AKAI CD Vol 1 (Track 01).bin", wrap2352(img))  # S120: names as ripping tools write them
     p = os.path.join(scratch.dir, "sectors.cue")
     with open(p, "w", encoding="ascii", newline="") as f:
-        f.write(cue_for("data2352.bin", "MODE1/2352"))
+        f.write(cue_for("AKAI CD Vol 1 (Track 01).bin", "MODE1/2352"))
     d["cue-2352"] = p
     # a cue sheet over the MDX file (S56), and a mixed-mode sheet: a data track followed by audio tracks
-    scratch.write("datamdx.bin", wrap_mdx(img))
+    scratch.write("data mdx.bin", wrap_mdx(img))
     p = os.path.join(scratch.dir, "mdx.cue")
     with open(p, "w", encoding="ascii", newline="") as f:
-        f.write(cue_for("datamdx.bin", "MODE1/2048"))
+        f.write(cue_for("data mdx.bin", "MODE1/2048"))
     d["cue-mdx"] = p
     p = os.path.join(scratch.dir, "mixed.cue")
     with open(p, "w", encoding="ascii", newline="") as f:
-        f.write(cue_for("data2352.bin", "MODE1/2352") + '  TRACK 02 AUDIO\n    TITLE "Bonus"\n    INDEX 00 59:00:00\n    INDEX 01 59:02:00\n  TRACK 03 AUDIO\n    INDEX 01 61:00:00\n')
+        f.write(cue_for("AKAI CD Vol 1 (Track 01).bin", "MODE1/2352") + '  TRACK 02 AUDIO\n    TITLE "Bonus"\n    INDEX 00 59:00:00\n    INDEX 01 59:02:00\n  TRACK 03 AUDIO\n    INDEX 01 61:00:00\n')
     d["cue-2352+audio"] = p
     return d
 
@@ -151,9 +151,9 @@ def run(ctx, rep: Report, deep: bool = False):
         from smpl_extract import actions as A
         from smpl_extract.cdda.image import CompactDiskAudioImage
 
-        s.write("a.bin", bytes(2352 * 10))
+        s.write("a b.bin", bytes(2352 * 10))
         p = os.path.join(s.dir, "audio.cue")
-        open(p, "w").write('FILE "a.bin" BINARY\n  TRACK 01 AUDIO\n    INDEX 01 00:00:00\n')
+        open(p, "w").write('FILE "a b.bin" BINARY\n  TRACK 01 AUDIO\n    INDEX 01 00:00:00\n')
         img = A.determine_image_type(p)
         if not isinstance(img, CompactDiskAudioImage):
             rep.findings.append(Finding("all-audio-cue-not-cdda", {"type": type(img).__name__}))
